@@ -12,6 +12,9 @@ RULES = {
     'R-GATHER': 'final_step reaches the record from the generated steps of the coordinate the entry belongs to, through selection only (slices, gathers, reshape, '
                 'multiplication by exactly one) - so it is one of the generated steps - and error_estimate / final_step '
                 'have exactly the shape of the result',
+    'R-OWNDATA': 'for an elementwise f the error estimate of element c is computed from the estimates of element c only (a statistic '
+                 'pooled over all elements - a percentile of a flattened selection - lets the other elements decide how much an '
+                 'estimate is trusted, which no bound of the form "error <= c * estimate" for every input survives)',
     'R-FLOOR': 'with a single finite-difference estimate (nothing to compare it with) the reported error is not proportional to '
                'the estimate: Richardson._estimate_error keeps a term that depends on the step only, so a value that happens to be '
                '(near) zero does not come with a (near) zero error estimate (exact-algebra run, value set to 0 afterwards)',
@@ -48,7 +51,7 @@ def run(ctx):
         'identity; both sides of every undetermined branch are analysed.')
     rep.assume('the generated steps are positive (C05 R-STEPSIGN / user base_step > 0)')
     for rid, text in RULES.items():
-        rep.rule(rid, text, 10 if rid != 'R-FLOOR' else 2)
+        rep.rule(rid, text, {'R-FLOOR': 2, 'R-OWNDATA': 4}.get(rid, 10))
     core = ctx.repo.module('core')
     for cls, kw, xshape, fshape, rshape in CASES:
         one(ctx, core, cls, kw, xshape, fshape, rshape)
@@ -161,6 +164,12 @@ def one(ctx, core, cls, kw, xshape, fshape, rshape, nsteps=9, late=False):
                and not (isinstance(e, (int,)) and e >= 0)]
         rep.check(not bad, 'R-NONNEG', construct, where, {'error_estimate': repr(eitems[:3]), 'not_provably_nonneg': bad[:3],
                                                        'path': path}, 'error_estimate >= 0', label, key='nonneg')
+        # own data
+        if fshape is None and cls == 'Derivative':
+            foreign = ['error_estimate[%d] depends on %s' % (c, sorted(t for t in tags_of(e) if t[0] == 'x' and t[1] != c)[:3])
+                       for c, e in enumerate(eitems) if any(t[0] == 'x' and t[1] != c for t in tags_of(e))]
+            rep.check(not foreign, 'R-OWNDATA', construct, where, {'foreign_dependence': foreign[:3], 'path': path},
+                      'error_estimate[c] depends on element c only', label, key='owndata')
         # gather / shapes
         sitems = items(fstep)
         badsel = [repr(e) for e in sitems if not (isinstance(e, DV) and e.sel is not None and
